@@ -325,6 +325,7 @@ func (d *Decoder) decodeData(tr TemplateRecord) ([]DecodedField, error) {
 	)
 
 	r := d.reader
+	startCount := r.ReadCount()
 
 	for i := 0; i < len(tr.ScopeFieldSpecifiers); i++ {
 		b, err = r.Read(int(tr.ScopeFieldSpecifiers[i].Length))
@@ -368,6 +369,12 @@ func (d *Decoder) decodeData(tr TemplateRecord) ([]DecodedField, error) {
 			ID:    m.FieldID,
 			Value: ipfix.Interpret(&b, m.Type),
 		})
+	}
+
+	// a record that occupies no octets can never end its flowset
+	if r.ReadCount() == startCount {
+		return nil, nonfatalError{fmt.Errorf("Netflow template id# %d describes zero-length records",
+			tr.TemplateID)}
 	}
 
 	return fields, nil
